@@ -486,6 +486,18 @@ def _replay_table(args: dict) -> str | None:
         return f"verify_proof({token!r}, now={now}, skew={skew}, kids={sorted(secrets)}) -> {got}; the decision table of docs/proxy-proof-spec.md §6 says {want}"
     if cache is not None and want not in ("ok", "replayed") and len(cache) != (0 if args["fresh"] else 1):
         return f"verify_proof({token!r}) -> {got} but the nonce of this unverified proof was put into the replay cache"
+    # the abstract run also compares the *order* of effects; its observable consequence on real code:
+    # a proof whose MAC does not verify must leave the replay cache untouched
+    probe_cache = NonceCache(ttl_seconds=30, clock=lambda: 0.0)
+    forged = pf.mint_proof(wrong, "kid-one", _ORIGIN, now=1000, nonce="F" * 22)
+    try:
+        pf.verify_proof(forged, secrets=secrets, origin_id=_ORIGIN, skew_seconds=30, nonce_cache=probe_cache, now=1000)
+        return f"forged proof {forged!r} accepted"
+    except pf.ProofError as e:
+        if e.reason != "bad_mac":
+            return f"forged proof {forged!r} -> {e.reason}, the table says bad_mac"
+    if len(probe_cache) != 0:
+        return f"verify_proof remembered the nonce of a proof whose MAC did not verify ({forged!r}): an attacker can burn nonces / evict real ones"
     return None
 
 
